@@ -256,9 +256,17 @@ def replay_file(path, quiet=False, record=False):
     return 2
 
 
-def _replay_fresh(path, hashseed, record=False):
+def _child_env(hashseed):
+    """Environment for a fresh simcheck process: stage 1 must run again (own bytecode cache, own hash seed)."""
     env = dict(os.environ)
+    for k in ('SIM_STAGE', 'PYTHONHASHSEED', 'PYTHONPYCACHEPREFIX'):
+        env.pop(k, None)
     env['SIM_HASHSEED'] = str(hashseed)
+    return env
+
+
+def _replay_fresh(path, hashseed, record=False):
+    env = _child_env(hashseed)
     cmd = [os.path.join(VERIF, 'bin', 'simcheck'), 'replay', path, '--quiet']
     if record:
         cmd.append('--record')
@@ -294,12 +302,16 @@ def run_check(pid, tier, base_seed, nproc=None, max_runs=None, write_evidence=Tr
     gate_jobs = [j for k, j in enumerate(jobs) if k % gate_every == 0]
 
     # other-hash-seed digests in a fresh interpreter, concurrently with the pool
-    hs_jobs = gate_jobs[:24] if tier == 'quick' else gate_jobs[:96]
+    hs_n = getattr(check, 'hashseed_sample', {'quick': 24, 'thorough': 96})[tier]
+    if hs_n <= len(gate_jobs):
+        hs_jobs = gate_jobs[:hs_n]
+    else:
+        step = max(1, len(jobs) // hs_n)
+        hs_jobs = jobs[::step][:hs_n]
     hs_seeds = getattr(check, 'hashseeds', {'quick': [1], 'thorough': [1, 2]})[tier]
     hs_procs = []
     for hs in hs_seeds:
-        env = dict(os.environ)
-        env['SIM_HASHSEED'] = str(hs)
+        env = _child_env(hs)
         hs_procs.append((hs, subprocess.Popen(
             [os.path.join(VERIF, 'bin', 'simcheck'), 'digests', '--property', check.id, '--tier', tier,
              '--seed', str(base_seed), '--jobs', json.dumps(hs_jobs)],
@@ -314,7 +326,7 @@ def run_check(pid, tier, base_seed, nproc=None, max_runs=None, write_evidence=Tr
     notes = []
     gate_mismatch = []
     gate_reruns = 0
-    gset = set(gate_jobs)
+    gset = set(gate_jobs) | set(tuple(j) for j in hs_jobs)
     try:
         with _pool(nproc) as pool:
             futs = [pool.submit(_worker_chunk, (check.id, tier, base_seed, ch, [j for j in ch if j in gset]))
@@ -348,6 +360,7 @@ def run_check(pid, tier, base_seed, nproc=None, max_runs=None, write_evidence=Tr
 
             # other hash seeds
             hs_checked = 0
+            hs_violations = []
             for hs, p in hs_procs:
                 try:
                     so, se = p.communicate(timeout=1800)
@@ -359,42 +372,52 @@ def run_check(pid, tier, base_seed, nproc=None, max_runs=None, write_evidence=Tr
                     harness_msgs.append('hashseed %s digest run failed: %s' % (hs, (so + se)[-800:]))
                     continue
                 other = json.loads(so.strip().splitlines()[-1])
-                for k, d in other.items():
+                for k, rec in other.items():
                     hs_checked += 1
-                    if agg['digests'].get(k) != d:
+                    if rec.get('violation') and agg['digests'].get(k) != rec['digest']:
+                        # the property is quantified over the hash seed too: a violation that shows only under
+                        # another PYTHONHASHSEED is a violation, replayed under that seed
+                        hs_violations.append({'job': json.loads(k), 'plan': rec['plan'], 'violation': rec['violation'],
+                                              'digest': rec['digest'], 'prelude': [], 'hashseed': str(hs)})
+                    elif agg['digests'].get(k) != rec['digest']:
                         gate_mismatch.append('hashseed%s:%s' % (hs, k))
 
+            if os.environ.get('SIM_DEBUG'):
+                print('DEBUG hs_checked=%d hs_violations=%d gate_mismatch=%d hs_jobs=%d' % (hs_checked, len(hs_violations), len(gate_mismatch), len(hs_jobs)))
             # violations -> minimise, replay files
             findings = [(p, k, d) for (p, k, d) in load_findings() if p == check.id]
             by_key = {}
-            for v in agg['violations']:
+            for v in agg['violations'] + hs_violations:
                 by_key.setdefault(v['violation']['key'], v)
             reported = []
             known_hit = []
             budget = 40 if tier == 'quick' else 120
             todo = sorted(by_key.items())[:6]
-            mfuts = [(key, v, pool.submit(_worker_minimise, (check.id, v['plan'], key, budget)))
+            mfuts = [(key, v, pool.submit(_worker_minimise, (check.id, v['plan'], key, budget)) if not v.get('hashseed') else None)
                      for key, v in todo]
             for key, v, mf in mfuts:
+                hseed = v.get('hashseed') or os.environ.get('PYTHONHASHSEED', '0')
                 try:
+                    if mf is None:
+                        raise RuntimeError('found under PYTHONHASHSEED=%s: not minimised in this interpreter' % hseed)
                     mplan, mviol, mdigest, mstats = mf.result(timeout=budget * 4 + 120)
                 except Exception as e:
                     notes.append('minimiser could not reproduce %s in isolation: %s' % (key, str(e)[-200:]))
                     mplan, mviol, mdigest, mstats = v['plan'], v['violation'], v['digest'], {'error': repr(e)}
                 path = write_replay(check, mplan, mviol, mdigest,
-                                    {'minimised': mstats, 'tier': tier, 'job': v['job']})
-                rc, outp = _confirm(path, os.environ.get('PYTHONHASHSEED', '0'))
+                                    {'minimised': mstats, 'tier': tier, 'job': v['job'], 'hashseed': hseed})
+                rc, outp = _confirm(path, hseed)
                 if rc != 1:
                     # fall back to the unminimised plan
                     path = write_replay(check, v['plan'], v['violation'], v['digest'],
-                                        {'minimised': {'fallback': True}, 'tier': tier, 'job': v['job']})
-                    rc, outp = _confirm(path, os.environ.get('PYTHONHASHSEED', '0'))
+                                        {'minimised': {'fallback': True}, 'tier': tier, 'job': v['job'], 'hashseed': hseed})
+                    rc, outp = _confirm(path, hseed)
                 if rc != 1 and v.get('prelude'):
                     # the violation needs state left behind by earlier runs of the same chunk
                     path = write_replay(check, v['plan'], v['violation'], v['digest'],
-                                        {'minimised': {'fallback': 'with-prelude'}, 'tier': tier, 'job': v['job'],
+                                        {'minimised': {'fallback': 'with-prelude'}, 'tier': tier, 'job': v['job'], 'hashseed': hseed,
                                          'prelude': {'jobs': v['prelude'], 'tier': tier, 'base_seed': base_seed}})
-                    rc, outp = _confirm(path, os.environ.get('PYTHONHASHSEED', '0'))
+                    rc, outp = _confirm(path, hseed)
                     if rc == 1:
                         notes.append('violation %s reproduces only after the %d runs that preceded it in its worker process '
                                      '(state carried between runs by the tree under test); replay includes them'
@@ -409,7 +432,7 @@ def run_check(pid, tier, base_seed, nproc=None, max_runs=None, write_evidence=Tr
                     reported.append((key, mviol, path))
     except cf.process.BrokenProcessPool as e:
         harness_msgs.append('worker died (timeout or crash): %r' % (e,))
-        reported, known_hit, hs_checked = [], [], 0
+        reported, known_hit, hs_checked, hs_violations = [], [], 0, []
     for he in agg['harness_errors'][:3]:
         harness_msgs.append('exception in generator/executor job=%r:\n%s' % (he['job'], he['trace']))
     if gate_mismatch:
@@ -498,6 +521,9 @@ def digests_cmd(pid, tier, base_seed, jobs):
     for job in jobs:
         job = (job[0], job[1])
         plan = _plan_for(check, job, tier, base_seed)
-        out[canon(job)] = execute_guarded(check, plan).digest
+        res = execute_guarded(check, plan)
+        out[canon(job)] = {'digest': res.digest,
+                           'violation': res.violations[0].to_json() if res.violations else None,
+                           'plan': plan if res.violations else None}
     print(json.dumps(out))
     return 0
